@@ -293,7 +293,7 @@ impl Run {
         let limit_ms: u64 = std::env::var("VERIF_CALL_TIMEOUT_MS")
             .ok()
             .and_then(|s| s.parse().ok())
-            .unwrap_or(20_000);
+            .unwrap_or(10_000);
         let r = run.clone();
         std::thread::spawn(move || loop {
             std::thread::sleep(Duration::from_millis(250));
